@@ -31,3 +31,29 @@ func vc24(n int) {
 	got := string(HTMLEscape(s))
 	vassert(got == vref_htmlescape(s), "equals-reference")
 }
+
+// length-dependent code paths: a long concrete body with symbolic bytes at
+// the start and at the end, for total lengths around powers of two (buffer
+// size decisions depend on len(s) and on the escaped length)
+func vc24_long(n int) {
+	lens := []int{30, 62, 124, 126, 127, 252, 255, 510}
+	body := lens[vsym_choice(len(lens))]
+	head := vsym_nstring(n)
+	tail := vsym_nstring(n)
+	mid := make([]byte, body)
+	for i := range mid {
+		mid[i] = 'a'
+	}
+	if vsym_bool() {
+		// a body made of characters that need escaping (5 output bytes each)
+		for i := range mid {
+			mid[i] = '"'
+		}
+	}
+	s := head + string(mid) + tail
+	got := string(HTMLEscape(s))
+	vassert(got == vref_htmlescape(s), "equals-reference-on-long-strings")
+}
+
+func vh_c24_long_q() { vc24_long(1) }
+func vh_c24_long_t() { vc24_long(2) }
